@@ -20,7 +20,7 @@ LIFE = {
     "C05": dict(models=["overlap", "restart"], tmodels=["t_overlap2", "t_restart3"], fams=["overlap", "base"],
                 crashes=(0, 1, 1), wf=0, rf=0),
     "C06": dict(models=["base_conf", "faults"], tmodels=["base_exp", "base_tot", "t_faults2"], fams=["base", "amtless", "other", "overlap", "twohash"],
-                crashes=(0,), wf=1, rf=1),
+                crashes=(0,), wf=1, rf=1, extra=["garbage", "class-raw"]),
     "C07": dict(models=["base_conf", "base_exp", "base_tot", "base_amtless"], tmodels=["overlap"], fams=["base", "amtless"],
                 crashes=(0,), wf=0, rf=0),
     "C08": dict(models=["overlap", "faults", "restart"], tmodels=["t_overlap2", "t_faults2"], fams=["overlap", "base"],
@@ -28,7 +28,8 @@ LIFE = {
     "C09": dict(models=["faults"], tmodels=["t_faults2", "restart"], fams=["base", "overlap"], crashes=(0, 1, 1), wf=1, rf=0, probes=3),
     "C11": dict(models=["base_conf", "restart"], tmodels=["t_restart3", "base_exp"], fams=["base", "amtless"], crashes=(0, 1), wf=0, rf=0),
     "C12": dict(models=["base_tot", "base_exp"], tmodels=["base_conf"], fams=["base", "amtless"], crashes=(0,), wf=0, rf=0),
-    "C13": dict(models=["base_foreign"], tmodels=["twohash"], fams=["other", "twohash"], crashes=(0,), wf=0, rf=0),
+    "C13": dict(models=["base_foreign"], tmodels=["twohash"], fams=["other", "twohash"], crashes=(0,), wf=0, rf=0, extra=["class"]),
+    "C10": dict(models=["base_foreign", "base_amtless"], tmodels=["base_conf"], fams=["other", "amtless"], crashes=(0,), wf=0, rf=0, extra=["class"]),
     "C15": dict(models=["provider"], tmodels=[], fams=["base"], crashes=(0,), wf=0, rf=0, direct=3, allrate=1),
     "C16": dict(models=["provider"], tmodels=[], fams=["base"], crashes=(0,), wf=0, rf=0, direct=3, allrate=1),
     "C14": dict(models=["twohash"], tmodels=["t_twohash2"], fams=["twohash"], crashes=(0,), wf=0, rf=0, freeze=True),
@@ -137,4 +138,21 @@ def build_jobs(pid, tier, seed, workdir):
                         probes=spec.get("probes", 0), heights=spec.get("heights", False), freeze=spec.get("freeze", False),
                         start_run=runno, direct=spec.get("direct", 0), policies=spec.get("policies", True))
     jobs += rj
+    runno += len(rj)
+    # 3. systematically enumerated inputs
+    ex = spec.get("extra", [])
+    if "class" in ex:
+        cj = scen.class_jobs(seed, tier, start_run=runno)
+        jobs += cj; runno += len(cj)
+        sched_stats["classification cases"] = len(cj)
+    elif "class-raw" in ex:
+        cj = [j for j in scen.class_jobs(seed, tier, start_run=runno) if j["tag"] == "class-raw"]
+        for k, j in enumerate(cj):
+            j["run"] = runno + k
+        jobs += cj; runno += len(cj)
+        sched_stats["raw metadata cases"] = len(cj)
+    if "garbage" in ex:
+        gj = scen.garbage_jobs(seed, 8000 if thorough else 1200, start_run=runno)
+        jobs += gj; runno += len(gj)
+        sched_stats["garbage input runs"] = len(gj)
     return jobs, sched_stats
